@@ -25,6 +25,7 @@ func runC03(w *World) *Result {
 	r.Rule("R-C03-dvc", "array counter incremented before the array name is formed; one global counter name", 2)
 	r.Rule("R-C03-init", "helper routines give their counters / accumulators a value before updating them from themselves", 2)
 	r.Rule("R-C03-numcmp", "Bash test commands order numbers with -lt/-le/-gt/-ge, never with < or > (text order)", 1)
+	r.Rule("R-C03-handle", "writing an element or copying elements never rebinds the slice variable itself (aliases stay aliases of the same storage)", 4)
 	r.Rule("R-C03-scratch", "a helper keeps no state in a non-local variable that a helper it calls assigns", 1)
 	r.Rule("R-C03-wiring", "slice / string operations: name, index, value, bounds and flags reach the Converter parameter they belong to", 10)
 	WiringRule(w, r, "R-C03-wiring", func(m string) bool {
@@ -54,6 +55,7 @@ func runC03(w *World) *Result {
 		c03Arity(w, b, r)
 		c03Dvc(w, b, r)
 		c03Scratch(w, b, r)
+		SliceHandleRule(w, b, r, "R-C03-handle")
 		if role == "bash" {
 			BashTestOrderRule(w, b, r, "R-C03-numcmp", func(l *Line) bool { return l.Em.Helper != "" })
 		}
@@ -1390,5 +1392,72 @@ func BatchLenMonotoneRule(w *World, b *Backend, r *Result, rule string) {
 	}
 	if n == 0 {
 		r.Bad(rule, "lenmono:batch:none", "-", "no helper stores a length derived from the assigned index")
+	}
+}
+
+// ---- the slice variable is rebound by assignments only ---------------------------------
+
+// SliceHandleRule: a slice variable holds the identity of its storage; two variables that
+// hold the same identity are aliases. The element-level operations (write one element,
+// copy elements) act on the storage and never emit an assignment whose target is the
+// slice variable itself: rebinding it would make the destination an alias of something
+// else (and cut it off from its own aliases).
+func SliceHandleRule(w *World, b *Backend, r *Result, rule string) {
+	reBash := regexp.MustCompile(`^(local |declare |export )?[A-Za-z_0-9\x00]+$`)
+	reBatch := regexp.MustCompile(`(?i)^set (/a )?"?[A-Za-z_0-9\x00]+$`)
+	for _, m := range []string{"SliceAssignment", "Copy"} {
+		lines := b.LinesOf(m)
+		bad := ""
+		for _, l := range lines {
+			var pre strings.Builder
+			var origins []string
+			found := false
+		parts:
+			for _, p := range l.Variant {
+				switch p := p.(type) {
+				case Lit:
+					if i := strings.IndexByte(p.S, '='); i >= 0 {
+						pre.WriteString(p.S[:i])
+						found = true
+						break parts
+					}
+					pre.WriteString(p.S)
+				case Hole:
+					pre.WriteByte(0)
+					origins = append(origins, p.Origin)
+				case Num:
+					pre.WriteByte('0')
+				default:
+					break parts
+				}
+			}
+			if !found {
+				continue
+			}
+			re := reBash
+			if b.Role == "batch" {
+				re = reBatch
+			}
+			if !re.MatchString(pre.String()) {
+				continue
+			}
+			for _, o := range origins {
+				if strings.HasPrefix(o, m+".") {
+					bad = fmt.Sprintf("%s emits the assignment %s, whose target is the slice variable ⟨%s⟩ itself: the variable is bound to other storage instead of its elements being changed (it becomes an alias of the source and leaves its own aliases behind)", m, l.Variant.String(), o)
+				}
+			}
+		}
+		key := "handle:" + b.Role + ":" + m
+		pos := "-"
+		if len(lines) > 0 {
+			pos = w.Pos(lines[0].Em.Pos)
+		}
+		if len(lines) == 0 {
+			r.Bad(rule, key, pos, m+" emits nothing that could be examined")
+		} else if bad != "" {
+			r.Bad(rule, key, pos, bad)
+		} else {
+			r.Ok(rule, key, pos, fmt.Sprintf("none of the %d lines of %s assigns the slice variable itself", len(lines), m))
+		}
 	}
 }
